@@ -291,7 +291,7 @@ theorem schema_ok_mem {c c' : Coll} {l : Loaded} (h : c.schema = (c', .ok l)) : 
   all_goals first | (cases h; rfl) | (simp only [Prod.mk.injEq, reduceCtorEq, and_false] at h)
 
 /-- with a cached schema the access always succeeds -/
-theorem schema_of_mem {c : Coll} {l0 : Loaded} (h : c.mem = some l0) :
+theorem schema_of_memL {c : Coll} {l0 : Loaded} (h : c.mem = some l0) :
     c.schema = ({ c with mem := some (startFlusher l0) }, .ok (startFlusher l0)) := by
   unfold Coll.schema
   rw [h]
@@ -327,7 +327,7 @@ theorem get_no_panic (c : Coll) (u : Nat) (hs : (c.schema).2 ≠ .panic) : (c.ge
 theorem get_mem_isSome {c : Coll} (hm : c.mem.isSome = true) (u : Nat) : (c.get u).1.mem.isSome = true := by
   obtain ⟨l0, hl⟩ := Option.isSome_iff_exists.mp hm
   unfold Coll.get
-  rw [schema_of_mem hl]
+  rw [schema_of_memL hl]
   simp only []
   repeat' split
   all_goals rfl
@@ -340,8 +340,8 @@ theorem get_of_mem {c : Coll} (hm : c.mem.isSome = true) (u : Nat) :
   · exact Or.inl ⟨o, rfl⟩
   · rcases get_err_classes c u e hg with rfl | h2
     · exact Or.inr rfl
-    · rw [schema_of_mem hl] at h2; cases h2
-  · exact absurd hg (get_no_panic c u (by rw [schema_of_mem hl]; exact fun h => nomatch h))
+    · rw [schema_of_memL hl] at h2; cases h2
+  · exact absurd hg (get_no_panic c u (by rw [schema_of_memL hl]; exact fun h => nomatch h))
 
 theorem searchOp_err {m : Option Matcher} {op : Op} {l : FIdx} {v : Val} {e : Err}
     (h : ObjIndex.searchOp m op l v = .err e) : e = .pattern := by
@@ -408,7 +408,7 @@ theorem search_err_classes (E : Env) (c : Coll) (field : String) (op : Option Op
 
 /-! ### the closed list: the schema access never panics and has three error classes -/
 
-theorem controlLoaded_cases (live : List (String × String)) (d : Disk) (l : Loaded) :
+theorem controlLoaded_casesL (live : List (String × String)) (d : Disk) (l : Loaded) :
     controlLoaded live d l = .ok () ∨ controlLoaded live d l = .err .structChanged ∨
     controlLoaded live d l = .err .corrupted := by
   unfold controlLoaded
@@ -424,7 +424,7 @@ theorem schema_cases (c : Coll) :
   · split
     · exact Or.inr (Or.inl rfl)
     · rename_i img _
-      rcases controlLoaded_cases c.live c.disk
+      rcases controlLoaded_casesL c.live c.disk
           { descs := img.descs, settings := img.settings, index := img.index.reload } with h | h | h
       all_goals (simp only []; rw [h]; simp)
 
